@@ -115,7 +115,7 @@ Allowed(type) ==
     [] type = "cache_control" -> {"name-case", "ows", "empty", "order", "unknown"}
     [] type = "set_cookie"    -> {"name-case", "ows", "eq-ws", "empty", "order", "unknown"}   \* empty: RFC 6265 5.2 ignores an empty cookie-av
     [] type = "content_type"  -> {"name-case", "ows", "quote"}
-    [] type = "xxss"          -> {"ows"}
+    [] type = "xxss"          -> {"name-case", "ows"}        \* no RFC; the property names the field and the letter case of directive names
     [] type = "csp"           -> {"name-case", "ows", "empty"}
     [] type = "dmarc"         -> {"ows", "eq-ws", "trail", "order", "unknown"}
     [] type = "mta_sts"       -> {"ows", "trail", "order", "unknown"}
